@@ -828,9 +828,9 @@ def c06(rep, W, rule="C06"):
     ops, _ = E.inmem_summary(W, mb)
     sg = [o for o in ops if o.logical == "snapshots" and o.method == "get"]
     okr = False
-    for site, term in S.exits(W, mb):
-        mm = m(pat.adt("Result", "Ok", ("0", V("x"))), term)
-        if mm is not None and sg and mm["x"] == sg[0].term:
+    for site, rt, val, kind in S.exit_kinds(W, mb, lambda t: "x"):
+        mm = m(pat.adt("Result", "Ok", ("0", V("x"))), rt)
+        if mm is not None and sg and S.is_lookup_result(mm["x"], sg[0].term):
             okr = True
     rep.ob(rule + ".BLOB", ("inmemory", "get_snapshot_data", "returns-stored-bytes"), okr, "in-memory get_snapshot_data returns snapshots.get(client).cloned()", where(mb))
     # 4. Ops return the storage record's fields (C08 i / C11.READ)
